@@ -9,9 +9,11 @@ import (
 	"os/exec"
 	"path/filepath"
 	"strings"
+	"sync"
 	"testing"
 
 	"github.com/osteele/liquid"
+	"github.com/osteele/liquid/render"
 	"pgregory.net/rapid"
 
 	"verifharness/hx"
@@ -45,6 +47,15 @@ func c02Engine(c *c02Case, used ...bool) *liquid.Engine {
 	}
 	return e
 }
+
+// the names of the standard filters, read from the repository's sources once
+var c02FilterNames = sync.OnceValue(func() []string {
+	si, err := hx.ReadSrcInfo()
+	if err != nil || len(si.Filters) == 0 {
+		return []string{"upcase", "downcase", "size", "join", "first", "last", "append", "plus", "sort", "reverse", "default", "json"}
+	}
+	return si.Filters
+})
 
 // plainWriter is an io.Writer that is nothing else.
 type plainWriter struct{ b []byte }
@@ -383,6 +394,43 @@ var c02Deterministic = hx.Define("c02.entry-points", func(c *c02Case, s *hx.Sub)
 		}
 	}); pi != nil {
 		return hx.V("panic@"+pi.Site, "rendering an unrelated template: %v", pi)
+	}
+	// ... and another engine is given its own filters and tags under the names of standard ones, and under a new name
+	if pi := hx.Guard(func() {
+		o := newEngine(nil)
+		for _, f := range c02FilterNames() {
+			o.RegisterFilter(f, func(any) string { return "<another engine's filter>" })
+		}
+		o.RegisterFilter("c02_only_there", func(any) string { return "<another engine's filter>" })
+		o.RegisterTag("assign", func(render.Context) (string, error) { return "<another engine's tag>", nil })
+		o.RegisterTag("c02_tag_only_there", func(render.Context) (string, error) { return "<another engine's tag>", nil })
+		_, _ = o.ParseAndRenderString(src, nil)
+	}); pi != nil {
+		return hx.V("panic@"+pi.Site, "configuring another engine: %v", pi)
+	}
+	for _, st := range []func() *hx.Violation{
+		func() *hx.Violation {
+			return add("fresh engine, after another engine registered filters and tags under the same names", func() (string, error) {
+				return str(engine().ParseAndRender([]byte(src), binds()))
+			})
+		},
+		func() *hx.Violation {
+			return add("the same template, after another engine registered filters and tags under the same names", func() (string, error) { return str(tpl.Render(binds())) })
+		},
+	} {
+		if v := st(); v != nil {
+			return v
+		}
+	}
+	{
+		// a name only the other engine knows stays unknown here
+		probe := "{{ 1 | c02_only_there }}"
+		if c.Delims {
+			probe = "<< 1 | c02_only_there >>"
+		}
+		if out, err := engine().ParseAndRenderString(probe, nil); err == nil {
+			return hx.V("c02:differs", "%q renders %q on a fresh engine after another engine registered that filter; before, it is an undefined filter", probe, out)
+		}
 	}
 	for i, h := range kept {
 		if string(h.b) != h.copy {
